@@ -129,7 +129,20 @@ class Exec:
         self.segments = [(np.asarray(f.index, dtype=float), f.to_numpy(dtype=float), list(f.columns)) for f in frames]
         self.nrows = sum(len(s[0]) for s in self.segments)
         self.oracle_rows()
+        self.records = {"A": self._record()}
+        self.all_seg_params = list(self.seg_params)
         return True
+
+    _REC = ("res", "segments", "seg_params", "nrows", "o_args", "o_rhs", "o_stoich", "first_reads")
+
+    def _record(self) -> dict:
+        return {k: getattr(self, k) for k in self._REC}
+
+    def _use(self, which: str) -> None:
+        """Point the executor at one of the result objects the user holds."""
+        rec = self.records.get(which) or self.records["A"]
+        for k in self._REC:
+            setattr(self, k, rec[k])
 
     def oracle_rows(self) -> None:
         """Per row: a fresh model under the segment's parameters, asked at the row's state/time."""
@@ -266,13 +279,36 @@ class Exec:
             # the simulator carries on AFTER the result was taken; the result the user holds
             # is a finished object and must keep answering as before
             try:
+                p_now = {k: float(v) for k, v in self.model.get_parameter_values().items()}
                 self.T_end += float(op["dt"])
                 self.sim.simulate(self.T_end, steps=2)
             except Exception as e:  # noqa: BLE001
                 self.trace.add("continue", "exc", type(e).__name__)
                 return
+            self.all_seg_params.append(p_now)
             self.counters["simulator_continued_after_result_taken"] += 1
             self.trace.add("continue", op["dt"])
+            return
+        if op["op"] == "take_second":
+            # a SECOND result object taken from the same simulator at a later stage; the user
+            # now holds two and reads them in turn
+            res = self.sim.get_result()
+            frames = list(self.sim.variables or [])
+            if isinstance(res.value, Exception) or len(frames) != len(self.all_seg_params) or "B" in self.records:
+                self.trace.add("take_second", "skipped")
+                return
+            self._use("A")
+            self.records["A"] = self._record()
+            self.res = res.value
+            self.seg_params = list(self.all_seg_params)
+            self.segments = [(np.asarray(f.index, dtype=float), f.to_numpy(dtype=float), list(f.columns)) for f in frames]
+            self.nrows = sum(len(s[0]) for s in self.segments)
+            self.first_reads = {}
+            self.oracle_rows()
+            self.records["B"] = self._record()
+            self._use("A")
+            self.counters["second_result_taken_from_the_same_simulator"] += 1
+            self.trace.add("take_second", len(frames))
             return
         if op["op"] == "mutate":
             # the user keeps working with the model after the simulation
@@ -284,6 +320,8 @@ class Exec:
             self.trace.add("mutate", op["items"])
             self.counters["posthoc_mutation"] += 1
             return
+        which = op.get("which", "A") if getattr(self, "records", None) and op.get("which", "A") in self.records else "A"
+        self._use(which)
         v = op["view"]
         nk = (op.get("normalise") or {}).get("kind", "none")
         conc = op.get("concatenated", True)
@@ -292,6 +330,8 @@ class Exec:
         tag = [v, f"normalise:{nk}", "concatenated" if conc else "list", f"model:{self.case['model']}", "multi_segment" if len(self.segments) > 1 else "one_segment"]
         if self.counters.get("simulator_continued_after_result_taken"):
             tag.append("simulator_continued_after_result_taken")
+        if "B" in self.records:
+            tag.append(f"two_results_held:reading_{which}")
         try:
             got = self.call(op)
         except HarnessError:
@@ -400,6 +440,8 @@ def gen_case(rng: SimRng, tier: str) -> dict:  # noqa: ARG001, C901, PLR0912
             continue
         if r.random() < 0.08:
             ops.append({"op": "continue", "dt": r.choice([0.5, 1.0])})
+            if r.random() < 0.6:
+                ops.append({"op": "take_second"})
             continue
         if ops and r.random() < 0.25:
             prev = [o for o in ops if o["op"] == "read"]
@@ -407,7 +449,7 @@ def gen_case(rng: SimRng, tier: str) -> dict:  # noqa: ARG001, C901, PLR0912
                 ops.append(copy.deepcopy(r.choice(prev)))
                 continue
         v = r.choice(views)
-        op: dict = {"op": "read", "view": v}
+        op: dict = {"op": "read", "view": v, "which": r.choice(["A", "A", "B"])}
         if v not in ("variables", "fluxes", "get_combined", "get_new_y0"):
             op["concatenated"] = r.random() < 0.6
             x = r.random()
@@ -464,8 +506,10 @@ class ViewsMachine(Machine):
             ex.step(i, op)
             if ex.stop():
                 break
-        if not ex.stop():
-            ex.final_checks()
+        for which in list(getattr(ex, "records", {"A": None})):
+            if not ex.stop():
+                ex._use(which)
+                ex.final_checks()
         shape = digest_of(sorted(str(s) for s in ex.shape))
         for s in ex.shape:
             ex.counters[f"cell:{s[0]}|{s[1]}|{'conc' if s[2] else 'list'}"] += 1
